@@ -58,6 +58,16 @@ def reseed(s):
         pass
 
 
+def advance_private_rng(k):
+    """the fresh sampler that loads a checkpoint is constructed at some other position of scipy's
+    private (Fortran) generator than the original one was"""
+    try:
+        import scipy.linalg.interpolative as sli
+        sli.rand(3 * k)
+    except Exception:
+        pass
+
+
 def parse_snapshot(s):
     out = {}
     for part in s.split(";"):
@@ -481,11 +491,12 @@ def build_targets(cuqi):
     y2 = cuqi.distribution.Gaussian(A2 @ x, 0.001)
     T["multi6"] = cuqi.distribution.JointDistribution(x, y1, y2)(y1=d1, y2=d2)
     # conjugate pairs
-    xg = cuqi.distribution.Gaussian(np.zeros(10), lambda s: 1 / s)
-    sg = cuqi.distribution.Gamma(1, 1e-4)
-    T["conj"] = cuqi.distribution.Posterior(xg.to_likelihood(np.arange(10) * 0.1), sg)
-    xl = cuqi.distribution.LMRF(0, lambda s: 1 / s, geometry=10)
-    T["conjapprox"] = cuqi.distribution.Posterior(xl.to_likelihood(np.arange(10) * 0.1), sg)
+    yg = cuqi.distribution.Gaussian(np.zeros(10), lambda s: 1 / s, name='y')
+    sg = cuqi.distribution.Gamma(1, 1e-4, name='s')
+    T["conj"] = cuqi.distribution.Posterior(yg.to_likelihood(np.arange(10) * 0.1), sg)
+    xl = cuqi.distribution.LMRF(0, lambda s: 1 / s, geometry=10, name='x')
+    sl = cuqi.distribution.Gamma(1, 1e-4, name='s')
+    T["conjapprox"] = cuqi.distribution.Posterior(xl.to_likelihood(np.arange(10) * 0.1), sl)
     # hierarchical problem for the Gibbs samplers (variable names are inferred from the local names)
     def hier():
         A, y_obs, _ = deconv(8, phantom='square').get_components()
@@ -654,6 +665,7 @@ def oracle_stateful(ctx, cuqi, keyb, clsname, mk, N, K, tf, ckpath, seed, script
             fail("split", "sample(p); sample(N-p) == sample(N) bitwise", f"position {p}: first difference at index {first_diff(cb_chain, ref)}",
                  "drawing N then M differs from drawing N+M from the same random stream", {"position": p})
         try:
+            advance_private_rng(p + 1)
             c = new(None)
             c.load_checkpoint(ckpath)
             set_rs(scb, rs, c)
